@@ -13,16 +13,7 @@ use fr::images::*;
 use fr::MulDiv;
 use std::collections::HashMap;
 
-pub struct Pools(HashMap<usize, rayon::ThreadPool>);
-
-impl Pools {
-    pub fn new() -> Pools {
-        Pools(HashMap::new())
-    }
-    pub fn get(&mut self, n: usize) -> &rayon::ThreadPool {
-        self.0.entry(n).or_insert_with(|| rayon::ThreadPoolBuilder::new().num_threads(n).build().expect("thread pool"))
-    }
-}
+pub use firv::pool::Pools;
 
 pub struct TCase {
     c: RCase,
